@@ -20,6 +20,7 @@ from .exceptions import (
 from .response import BaseHTTPResponse
 from .util.connection import _TYPE_SOCKET_OPTIONS
 from .util.proxy import connection_requires_http_tunnel
+from .util.request import set_file_position
 from .util.retry import Retry
 from .util.timeout import Timeout
 from .util.url import Url, parse_url
@@ -437,6 +438,10 @@ class PoolManager(RequestMethods):
         if "headers" not in kw:
             kw["headers"] = self.headers
 
+        # Record (or, when following a redirect, restore) the position of a
+        # file-like body so that a redirect handled below can re-send it.
+        body_pos = set_file_position(kw.get("body"), kw.pop("body_pos", None))
+
         if self._proxy_requires_url_absolute_form(u):
             response = conn.urlopen(method, url, **kw)
         else:
@@ -482,6 +487,7 @@ class PoolManager(RequestMethods):
 
         kw["retries"] = retries
         kw["redirect"] = redirect
+        kw["body_pos"] = body_pos if kw.get("body") is not None else None
 
         log.info("Redirecting %s -> %s", url, redirect_location)
 
